@@ -329,5 +329,8 @@ func Harness_C09_fetch() {
 	_, err = NewUploadPackSession(ldb, lrs, c, advertised, WithUploadPackDepth(depth))
 	zzverif.Assert("repeated-fetch-wants-nothing", err != nil)
 	zzverif.Observe("packs", srv.packs)
+	if srv.packs > 1 {
+		zzverif.Reach("several-packfiles")
+	}
 	zzverif.Reach("end")
 }
